@@ -2,6 +2,7 @@
 import H3Model.Proto
 import H3Model.EdgeVertex
 import H3Model.Compact
+import H3Model.CompactSpec
 import H3Model.Hex2d
 import H3Model.Poly
 import H3Model.DiskSpec
@@ -154,6 +155,11 @@ def opsTrav (op : String) (a : List String) : Option String :=
     let (cells, _) ← parseHList args
     let (r, _) := compactCells noFail cells.toArray
     pure (showR (fun o => showArr (padTo o cells.length)) r)
+  | "compactS", args => do
+    let (cells, _) ← parseHList args
+    -- the specification answers only for small duplicate-free sets (quadratic)
+    if cells.length > 400 then none
+    pure ("ok " ++ showArr (compactSpec cells).toArray)
   | "uncompact", args => do
     let (cells, rest) ← parseHList args
     match rest with
